@@ -14,6 +14,13 @@ Lemma fserr_code_table :
   (forall e, fserr_code (FsProto PK_Settings e) = Some H3_SETTINGS_ERROR_rfc).
 Proof. repeat split. Qed.
 
+(* the control-stream site (poll_control) and the way both sites reach the table; the decoder has no state but the memo *)
+Lemma fserr_code_sites :
+  req_proto_via_table = true /\ ctl_proto_via_table = true /\
+  (forall e, fserr_code_ctl e = fserr_code e) /\
+  fd_decoder_field_count = 1 /\ fs_stream_field_count = 3.
+Proof. split; [reflexivity|]. split; [reflexivity|]. split; [intros [k e|q|]; reflexivity|]. split; reflexivity. Qed.
+
 (* ====================================================================================== *)
 (* Part A: the model's varint reader against RFC 9000 on a byte string                     *)
 (* ====================================================================================== *)
